@@ -228,3 +228,58 @@ def stmt_race(si: int, k: int, ei: int) -> bool:
     post: _
     """
     return done(fast.native(_stmt_race, fast.pick(si, len(STATEMENTS)), fast.pick(k, 8), fast.pick(ei, len(ST_EFFECTS))))
+
+
+# ------------------------------------------------------------------ no state left by one session's statement changes what another session's statement does
+EARLIER = [
+    [],
+    ["comment on table t1 is 'v1'", "alter table t1 set comment = 'v2'"],
+    ["alter table t1 set comment = 'v1'", "comment on table t1 is 'v2'"],
+    ["create table tz (a varchar(3)) comment = 'z'"],
+    ["set shared_name = 1"],
+]
+LATER = ["set batch = 7", "alter table t1 cluster by (a)", "create tag t", "select a from t1", "unset shared_name", "select $shared_name as x from t1"]
+
+
+def _cross_session(ei: int, li: int, has_schema: bool) -> bool:
+    eng = std_engine()
+    fs = instance(eng)
+    A = fs.connect(database="db1", schema="s1")
+    for q in EARLIER[ei]:
+        A.cursor().execute(q)
+    B = fs.connect(database="db1", schema="s2") if has_schema else fs.connect(database="db1")
+    base = len(eng.log)
+    err = None
+    try:
+        B.cursor().execute(LATER[li])
+    except snowflake.connector.errors.ProgrammingError as e:
+        err = e
+    # variables are per session: B never sees A's
+    if "shared_name" in LATER[li]:
+        if LATER[li].startswith("select"):
+            if err is None or "Session variable" not in (err.msg or ""):
+                return False
+        return True
+    if err is not None and not (not has_schema and err.errno == 90106):
+        return False
+    for _c, q in eng.log[base:]:
+        if isinstance(q, str) and "_fs_" in q.lower() and q.lstrip().upper().startswith(("INSERT", "UPDATE", "DELETE")):
+            return False  # B's statement re-applied something A declared
+    return True
+
+
+@ob(
+    "C19.no_state_leaks_between_sessions",
+    encodes=["fakesnow.cursor.FakeSnowflakeCursor.execute/_transform/_execute", "fakesnow.transforms (module-level shared expressions)", "fakesnow.variables.Variables"],
+    bounds="session A ran one of 5 statement prefixes (comments declared in two orders, CREATE TABLE with metadata, SET of a variable); then session B (same "
+    "database, own schema or no schema) runs one of 6 statements (SET, CLUSTER BY no-op, CREATE TAG, SELECT, UNSET / use of A's variable): B's "
+    "statement writes no metadata, fails only for its own reasons, and A's variables do not exist for it",
+    timeout=(200, 400),
+    stubs=["K1/K2 vf.duckstub.Engine"],
+)
+def cross_session(ei: int, li: int, has_schema: bool) -> bool:
+    """
+    pre: 0 <= ei < len(EARLIER) and 0 <= li < len(LATER)
+    post: _
+    """
+    return done(fast.native(_cross_session, fast.pick(ei, len(EARLIER)), fast.pick(li, len(LATER)), bool(fast.pick(has_schema, 2))))
